@@ -25,7 +25,8 @@ IN_BREAKING = ["img_missing", "img_empty", "img_garbage", "img_directory", "img_
                "mask_garbage", "mask_wrong_size", "classif_wrong_size", "segm_garbage", "disp_reversed",
                "grid_one_band", "grid_three_bands", "grid_wrong_size", "grid_min_gt_max", "right_grid_with_left_ints",
                "right_list", "left_disp_missing", "right_img_wrong_size", "right_grid_three_bands", "mask_empty_string",
-               "classif_empty_string", "segm_empty_string", "grid_min_gt_max_on_nodata_value"]
+               "classif_empty_string", "segm_empty_string", "grid_min_gt_max_on_nodata_value"] + \
+              [k + "_string:" + v for k in ("mask", "classif", "segm") for v in ("none", "None", "null", "NaN")]
 IN_PRESERVING = ["nodata_nan_str", "nodata_nan_float", "nodata_int", "extras_null", "classif_ok", "segm_ok",
                  "mask_ok", "grid_int_dtype"]
 # fault-then-repair pairs: a path is named while nothing readable is there, later the same path holds a good file
@@ -232,6 +233,9 @@ def apply_in_op(op, inp, w, tmp, uid):
         inp["right"]["disp"] = p("rgrid.tif")
     elif name == "right_list":
         inp["right"]["disp"] = [-2, 2]
+    elif "_string:" in name:
+        # a word that reads like "nothing" is not the documented null (JSON null / absent key) and names no raster
+        inp[side][name.split("_")[0]] = name.split(":", 1)[1]
     elif name in ("mask_empty_string", "classif_empty_string", "segm_empty_string"):
         inp[side][name.split("_")[0]] = ""  # not a readable raster, and not the documented null either
     elif name == "right_img_wrong_size":
